@@ -146,6 +146,25 @@ def run(prog: Program, ctx: Ctx) -> None:  # noqa: PLR0912,PLR0915
         ctx.ob("R2", f"row|present={present}|stub_alias={stub_alias}|runtime={'unresolvable alias' if broken else ok_}|stub={sk}" + ("|name also imported by the stub scope" if also_imported else ""), good,
                f"expected {want}; got events={names} raised={raised}", where(mm))
         ctx.ob("R2", f"imports|present={present}|{ok_}|{sk}|{stub_alias}|{broken}|{also_imported}", obj.attrs["imports"].get("x") == "y", "stub imports are merged into the runtime imports", where(mm), nontrivial=False)
+    # stub overloads go to the runtime *function* of that name (defined in place or re-exported); a class or module of that name keeps its own mapping
+    mo = prog.function(f"{MG}._merge_stubs_overloads")
+    for kind_, is_alias_ in (("FUNCTION", False), ("FUNCTION", True), ("CLASS", False), ("MODULE", False), ("ATTRIBUTE", False)):
+        own = {"own": ["mapping"]} if kind_ in ("CLASS", "MODULE") else None
+        rt = member(kind_, alias=is_alias_, label="runtime")
+        rt.attrs["overloads"] = own
+        ovs = [Obj(None, {"name": "f"}, label="overload 1"), Obj(None, {"name": "f"}, label="overload 2")]
+        sobj = Obj(None, {"overloads": {"f": list(ovs)}})
+        robj = Obj(None, {"get_member": Native(lambda n, rt=rt: rt)})
+        try:
+            it.call(mo, robj, sobj)
+            got_o: object = rt.attrs["overloads"]
+        except Raised as r:
+            got_o = f"raises {r.exc}"
+        want_o = ovs if kind_ == "FUNCTION" else own
+        rows += 1
+        ctx.ob("R2", f"overloads|runtime {'alias to ' if is_alias_ else ''}{kind_}", got_o == want_o,
+               f"stub `@overload def f` x2 with a runtime {'re-exported ' if is_alias_ else ''}{kind_.lower()} named f: its overloads become "
+               f"{[getattr(o_, 'label', o_) for o_ in got_o] if isinstance(got_o, list) else got_o}; expected {'the two stub signatures' if kind_ == 'FUNCTION' else 'left as they were'}", where(mo))
     # a runtime member that is a re-export two imports away from the object: the stubs are merged into the object at the end of the chain
     for kind_ in K:
         events.clear()
@@ -418,4 +437,15 @@ def _sides(f: FunctionInfo, tgt_p: str, src_p: str) -> dict[str, str]:
                 for t in ast.walk(n.target):
                     if isinstance(t, ast.Name):
                         side[t.id] = s
+    # a local bound to something reached from one side (`member = obj.get_member(name)`) belongs to that side
+    changed = True
+    while changed:
+        changed = False
+        for n in walk_no_nested(f.node):
+            if isinstance(n, ast.Assign) and len(n.targets) == 1 and isinstance(n.targets[0], ast.Name) and n.targets[0].id not in side:
+                v = n.value
+                r = _root(v.func.value if isinstance(v, ast.Call) and isinstance(v.func, ast.Attribute) else v)
+                if side.get(r or ""):
+                    side[n.targets[0].id] = side[r]
+                    changed = True
     return side
